@@ -184,6 +184,11 @@ func (i *InvalidationIndex) cutKeys(labeledKeys map[string][]string, labels ...s
 	defer i.mu.Unlock()
 
 	for _, label := range labels {
+		// Label can be listed more than once, its keys are already taken.
+		if _, found := res[label]; found {
+			continue
+		}
+
 		res[label] = labeledKeys[label]
 		delete(labeledKeys, label)
 	}
